@@ -183,6 +183,13 @@ def run_shard(d):
                                                    unswapped_score=fs, swapped_score=ss)))
                                 elif bool(i1.is_rc) != use or bool(i2.is_rc) != use:
                                     V.append((f"paired:{action}:bookkeeping", "is_rc flags do not describe the chosen orientation", dict(cfg, r1=a, r2=b)))
+                                else:
+                                    em1, em2 = (n1, n2) if use else (m1, m2)
+                                    if mtuple(i1.matches) != mtuple(em1) or mtuple(i2.matches) != mtuple(em2):
+                                        V.append((f"paired:{action}:matches", "matches recorded for R1/R2 are not those of the chosen orientation "
+                                                  "(later stages such as demultiplexing and renaming use them)",
+                                                  dict(cfg, r1=a, r2=b, recorded=[str(mtuple(i1.matches)), str(mtuple(i2.matches))],
+                                                       expected=[str(mtuple(em1)), str(mtuple(em2))])))
     return res
 
 
